@@ -59,9 +59,9 @@ impl TypeResolver {
     fn extract_result_ok_type(&self, rust_type: &str) -> Option<String> {
         if rust_type.starts_with("Result<") && rust_type.ends_with('>') {
             let inner = &rust_type[7..rust_type.len() - 1];
-            if let Some(comma_pos) = inner.find(',') {
-                let ok_type = inner[..comma_pos].trim();
-                Some(ok_type.to_string())
+            // Split at the first comma that is not nested inside <...>, (...) or [...]
+            if let Some((ok_type, _)) = self.parse_two_type_params(inner) {
+                Some(ok_type)
             } else {
                 Some(inner.to_string())
             }
@@ -127,8 +127,7 @@ impl TypeResolver {
             if inner.trim().is_empty() {
                 return Some(vec![]);
             }
-            let types: Vec<String> = inner.split(',').map(|s| s.trim().to_string()).collect();
-            Some(types)
+            Some(split_top_level_commas(inner))
         } else {
             None
         }
@@ -148,8 +147,8 @@ impl TypeResolver {
 
         for (i, ch) in inner.char_indices() {
             match ch {
-                '<' => depth += 1,
-                '>' => depth -= 1,
+                '<' | '(' | '[' => depth += 1,
+                '>' | ')' | ']' => depth -= 1,
                 ',' if depth == 0 => {
                     comma_pos = Some(i);
                     break;
@@ -272,6 +271,32 @@ impl TypeResolver {
                 .insert(rust_type.clone(), ts_type.clone());
         }
     }
+}
+
+/// Split a comma separated list of types at the commas that are not nested inside
+/// `<...>`, `(...)` or `[...]`, so that `HashMap<K, V>, (A, B)` yields two parts
+pub(crate) fn split_top_level_commas(list: &str) -> Vec<String> {
+    let mut parts = Vec::new();
+    let mut depth = 0;
+    let mut start = 0;
+
+    for (i, ch) in list.char_indices() {
+        match ch {
+            '<' | '(' | '[' => depth += 1,
+            '>' | ')' | ']' => depth -= 1,
+            ',' if depth == 0 => {
+                parts.push(list[start..i].trim().to_string());
+                start = i + 1;
+            }
+            _ => {}
+        }
+    }
+
+    let last = list[start..].trim();
+    if !last.is_empty() {
+        parts.push(last.to_string());
+    }
+    parts
 }
 
 impl Default for TypeResolver {
